@@ -320,4 +320,82 @@ theorem subdivide_rel (ar : Arith) (cfg : Cfg) (fq : FQ) (sb cb : BBox) (op op' 
       obtain ⟨ka, kh, kl, ks, kp, kb⟩ := key
       simp only [exMap, sOut, ka, kl, ks, kp, kb]
 
+/-! ### every sweep is the union sweep cut off at its exit test -/
+
+/-- the loop of `Union` (which never exits early), cut off at the first popped event on which `cut` fires:
+    that event is recorded and the loop ends -/
+def sweepLoopCut (ar : Arith) (cfg : Cfg) (cut : Pt → Bool) (rb sx : Rat) : Nat → SwSt → Except Fail SwSt
+  | 0, st => .error (.budget st.bumps)
+  | fuel + 1, st =>
+    match Heap.pop (evLe st.arena) st.heap with
+    | none => .ok st
+    | some (event, h) =>
+      let st := { st with heap := h, popped := st.popped + 1 }
+      if st.popped > cfg.budget then .error (.budget st.bumps) else
+      if cut st.arena[event]!.point then .ok { st with sorted := st.sorted.push event } else
+      match sweepStep ar cfg .union rb sx st event with
+      | .error e => .error e
+      | .ok (true, st) => .ok st
+      | .ok (false, st) => sweepLoopCut ar cfg cut rb sx fuel st
+
+theorem sweepLoop_is_cut_union (ar : Arith) (cfg : Cfg) (op : Op) (rb sx : Rat) :
+    ∀ (fuel : Nat) (st st' : SwSt), sSw st = sSw st' →
+      exMap sSw (sweepLoop ar cfg op rb sx fuel st)
+        = exMap sSw (sweepLoopCut ar cfg (exitsAt op rb sx) rb sx fuel st') := by
+  intro fuel
+  induction fuel with
+  | zero =>
+    intro st st' h
+    rw [sSw_eq_iff] at h
+    simp only [sweepLoop, sweepLoopCut, exMap, h.2.2.2.2.2]
+  | succ fuel ih =>
+    intro st st' h
+    obtain ⟨a, hp, ln, so, po, bu⟩ := st
+    obtain ⟨a', hp', ln', so', po', bu'⟩ := st'
+    rw [sSw_eq_iff] at h
+    obtain ⟨ha, rfl, rfl, rfl, rfl, rfl⟩ := h
+    simp only at ha
+    unfold sweepLoop sweepLoopCut
+    simp only [evLe_rel ha]
+    cases Heap.pop (evLe a') hp with
+    | none =>
+      simp only [exMap, Except.ok.injEq, sSw_eq_iff]
+      simpa using ha
+    | some r =>
+      obtain ⟨event, hp2⟩ := r
+      simp only
+      split
+      · rfl
+      · have hpt : a[event]!.point = a'[event]!.point := (fields_of_stripResult_eq (get_rel ha event)).1
+        have h0 : sSw (SwSt.mk a hp2 ln so (po + 1) bu) = sSw (SwSt.mk a' hp2 ln so (po + 1) bu) := by
+          rw [sSw_eq_iff]; exact ⟨ha, rfl, rfl, rfl, rfl, rfl⟩
+        cases hc : exitsAt op rb sx a'[event]!.point with
+        | true =>
+          rw [sweepStep_exit ar cfg op rb sx _ event (by simpa [hpt] using hc)]
+          simp only [if_true, exMap, Except.ok.injEq, sSw_eq_iff]
+          simpa using ha
+        | false =>
+          simp only [Bool.false_eq_true, if_false]
+          have key := sweepStep_rel_of_no_exit ar cfg op .union rb sx h0 event (by simpa [hpt] using hc)
+            (exitsAt_noExit .union (Or.inl rfl) _ _ _)
+          cases h1 : sweepStep ar cfg op rb sx (SwSt.mk a hp2 ln so (po + 1) bu) event with
+          | error e =>
+            cases h2 : sweepStep ar cfg .union rb sx (SwSt.mk a' hp2 ln so (po + 1) bu) event with
+            | error e' => rw [h1, h2] at key; simp only [exMap] at key; cases key; rfl
+            | ok r' => rw [h1, h2] at key; simp [exMap] at key
+          | ok r =>
+            cases h2 : sweepStep ar cfg .union rb sx (SwSt.mk a' hp2 ln so (po + 1) bu) event with
+            | error e' => rw [h1, h2] at key; simp [exMap] at key
+            | ok r' =>
+              rw [h1, h2] at key
+              simp only [exMap, Except.ok.injEq, Prod.mk.injEq] at key
+              obtain ⟨b, s1⟩ := r
+              obtain ⟨b', s1'⟩ := r'
+              obtain ⟨hb, hs⟩ := key
+              simp only at hb hs
+              subst hb
+              cases b with
+              | true => simp only [exMap, hs]
+              | false => exact ih s1 s1' hs
+
 end Gbo
